@@ -9,6 +9,8 @@ import Frrs.Identity
 import Frrs.Proofs.Replace
 import Frrs.Props.C05
 import Frrs.Proofs.CliValues
+import Frrs.Proofs.ShortHash
+import Frrs.Proofs.Duration
 namespace Frrs.C04
 open Frrs
 set_option linter.unusedSimpArgs false
@@ -256,6 +258,28 @@ theorem other_header_verbatim (o : FOpts) (s : FState) (line inp : Bytes)
     commitLine o s line inp = .cont (s.push line) inp :=
   commit_other_line_verbatim o s line inp hm h1 h2 h3 h4 h5
 
+/-! ### commit ids cited in messages (second and later runs in a repository) -/
+
+/-- **the id translator only ever swaps digits for digits, length for length**: with the commit-map of an earlier run in
+    place, a message keeps its length whatever ids it cites — an abbreviation of n digits becomes the first n digits of the
+    new id, a full id the full new id, every other byte is copied (new ids of 40 digits, as the tool writes them in a SHA-1
+    repository; `WF40`). -/
+theorem cited_ids_keep_message_length (m : ShMap) (h : WF40 m) (msg : Bytes) :
+    (rewriteMessage { shortHash := some m.rewrite } msg).length = msg.length := by
+  show (m.rewrite msg).length = msg.length
+  exact rewrite_length m h msg
+
+/-- an abbreviation that two recorded commits share is not guessed at -/
+theorem ambiguous_abbreviation_untouched (m : ShMap) (short a b : Bytes) (ha : a ∈ m.olds) (hb : b ∈ m.olds) (hab : a ≠ b)
+    (pa : short.length ≤ a.length ∧ a.take short.length = short) (pb : short.length ≤ b.length ∧ b.take short.length = short) :
+    m.lookupPrefix short = none := lookupPrefix_ambiguous m short a b ha hb hab pa pb
+
+/-- hex words of fewer than seven digits are never treated as ids -/
+theorem short_words_untouched (m : ShMap) (c : Bytes) (h : c.length < 7) : m.translate c = none := translate_short m c h
+
+example : WF40 ((ShMap.ofFile b!"abcdef0123456789abcdef0123456789abcdef01 1111111111222222222233333333334444444444\n").getD {}) :=
+  wf40_of_b _ (by decide +kernel)
+
 /-! ### the date options as typed on the command line (opts.rs `parse_duration`, `parse_timestamp`) -/
 
 /-- the unit names of `--date-shift` have the documented lengths (the whole table) -/
@@ -265,6 +289,24 @@ theorem date_shift_units :
     [some 1, some 1, some 1, some 60, some 60, some 60, some 60, some 60, some 3600, some 3600, some 3600,
      some 86400, some 86400, some 86400, some 604800, some 604800, some 604800, some 2592000, some 2592000, some 2592000,
      some 31536000, some 31536000, some 31536000] := unit_table
+
+/-- **`--date-shift "[+|-]<n> <unit>"` shifts by sign · n · (length of the unit) seconds**: for every n, every sign spelling and
+    every unit name made of letters that the table knows (upper or lower case), as long as the product fits an i64 (beyond
+    that the code saturates, `durationGo_pair`). The unit is given as its letters `u ++ [c]` (non-empty). -/
+theorem date_shift_single_component (sgn : Bytes) (sign : Int) (n : Nat) (u : Bytes) (c : UInt8) (m : Int)
+    (hs : (sgn, sign) ∈ [(([] : Bytes), (1 : Int)), ([0x2b], 1), ([0x2d], -1)])
+    (hu : ∀ b ∈ u ++ [c], isAlpha b = true) (hm : unitSeconds ((u ++ [c]).map lowerAsciiB) = some m)
+    (hm0 : 0 ≤ m) (hb : (n : Int) * m ≤ i64Max) (hn : (n : Int) ≤ i64Max) :
+    parseDuration (sgn ++ natToDec n ++ B.sp :: (u ++ [c])) = some (sign * ((n : Int) * m)) :=
+  parseDuration_single sgn sign n u c m hs hu hm hm0 hb hn
+
+/-- `--date-set N` with a plain number of seconds sets every timestamp to N, for every N an i64 holds -/
+theorem date_set_seconds (n : Nat) (hn : (n : Int) ≤ i64Max) : parseTimestamp (natToDec n) = some (n : Int) :=
+  parseTimestamp_seconds n hn
+
+/-- the hypotheses are met by, e.g., `-<n> HOURS` (not vacuous) -/
+example : (∀ b ∈ b!"HOUR" ++ [0x53], isAlpha b = true) ∧ unitSeconds ((b!"HOUR" ++ [0x53]).map lowerAsciiB) = some 3600 := by
+  decide +kernel
 
 -- tests (concrete values, not the claim): the examples of the help text, the sign applies to the sum, saturation, refusals
 example : parseDuration b!"+2 hours" = some 7200 := by decide +kernel
